@@ -881,6 +881,7 @@ func main() {
 		}
 		writeIfChanged(filepath.Join(filepath.Dir(*funcsPath), "GenMeta.v"), metaOut)
 		writeIfChanged(filepath.Join(filepath.Dir(*funcsPath), "GenRedirect.v"), emitRedirectFuncs(root, types, env, tenv))
+		writeIfChanged(filepath.Join(filepath.Dir(*funcsPath), "GenDeflate.v"), emitDeflateFuncs(root, types, env, tenv))
 	}
 	if *litPath != "" {
 		writeIfChanged(*litPath, collectLiterals(root, types, uuid))
